@@ -319,6 +319,26 @@ func c07Run(w *W) {
 				}
 				c.recv = call
 			}
+		case k == 8 && a%5 == 1 && !c.closed:
+			// the survey time is changed (it applies to surveys sent from now
+			// on): the survey in progress keeps the time it was sent with
+			nt := []time.Duration{T / 2, 2 * T, T, 3 * T}[(a/5)%4]
+			if nt <= 0 {
+				nt = T
+			}
+			w.Op("ctx%d SetOption(SurveyTime, %v)", c.idx, nt)
+			var err error
+			if c.c != nil {
+				err = c.c.SetOption(mangos.OptionSurveyTime, nt)
+			} else {
+				err = s.SetOption(mangos.OptionSurveyTime, nt)
+			}
+			if err != nil {
+				w.Failf("C19/surveytime-rejected", "surveyor ctx%d SetOption(SurveyTime, %v): %v", c.idx, nt, err)
+				return
+			}
+			c.T = nt
+			w.Probe("survey-time-changed-during-survey")
 		case k == 8 && a%5 == 0 && !c.closed:
 			// the receive queue length is changed (it applies to surveys sent
 			// from now on): the survey in progress, its queued responses and a
@@ -361,7 +381,7 @@ func c07Run(w *W) {
 				w.Failf("HARNESS/ctx", "%v", err)
 				return
 			}
-			cx := &c7Ctx{idx: len(ctxs), c: nc, T: T, qlen: ctxs[0].qlen} // (a new context starts with the socket's settings)
+			cx := &c7Ctx{idx: len(ctxs), c: nc, T: ctxs[0].T, qlen: ctxs[0].qlen} // (a new context starts with the socket's settings)
 			ctxs = append(ctxs, cx)
 			w.Op("ctx%d opened", cx.idx)
 			w.Probe("context-opened-mid-history")
